@@ -776,6 +776,7 @@ func (tree *MutableTree) SaveVersion() ([]byte, int64, error) {
 	if err := tree.ndb.Commit(); err != nil {
 		return nil, version, err
 	}
+	verifYield("save:committed")
 
 	tree.ndb.resetLatestVersion(version)
 	tree.version = version
